@@ -224,6 +224,7 @@ def run(ctx) -> None:
     ctx.floor("R7", "optional segments in Version.__str__", n_seg, 5)
     canonical_str_rule(ctx, "R7")
     legacy_key_rule(ctx, "R9")
+    pep440_key_rule(ctx, "R4")
     from checks.c15 import to_pep440_rule, letter_normalisation
     to_pep440_rule(ctx, "R7")
     # PEP 440 "alternate spellings": exactly these are normalised, each to its short form
@@ -497,3 +498,107 @@ def legacy_key_rule(ctx, rule: str) -> None:
         ctx.check(rule, not wrong2, f"_legacy_cmpkey == pkg_resources' key on {n2} part sequences (epoch -1; trailing zero groups and '-' before a pre-release word removed; terminates)",
                   f"{M}._legacy_cmpkey: the key of a legacy version is not pkg_resources' key (or is not computed at all)", "; ".join(wrong2[:2]), loc=lck.loc(), witness={"cases": wrong2[:4]})
     ctx.floor(rule, "legacy key functions evaluated", int(bool(n)) + int(bool(n2)), 0)
+
+
+def pep440_key_rule(ctx, rule: str) -> None:
+    """(a) Version.__init__ reads every named group of VERSION_PATTERN, each into the segment it belongs to; (b) the local
+    label is split into lower-cased words and ints (_parse_local_version, evaluated); (c) _cmpkey, evaluated for
+    4 releases x pre/post/dev present or not x 4 local labels, is packaging's key: trailing zeros of the release dropped,
+    the Infinity sentinels for absent segments, local parts as (int, "") / (-Infinity, word)."""
+    import itertools
+    import re as _re
+    import types
+    from sa.model import Abstract, CannotFold, EvalError
+    prog = ctx.prog
+    # (a)
+    vi = prog.klass(f"{M}.Version").methods.get("__init__")
+    ctx.require(vi is not None, "Version.__init__ vanished")
+    ctx.visit(vi.fq)
+    pat = prog.const(M, "VERSION_PATTERN")
+    groups = set(_re.compile(pat, _re.VERBOSE | _re.IGNORECASE).groupindex)
+    ctor = [c for c in ast.walk(vi.node) if isinstance(c, ast.Call) and unparse(c.func) == "_Version"]
+    ctx.require(len(ctor) == 1, "Version.__init__: _Version(...) constructor call not found")
+    read_by: T.Dict[str, T.Set[str]] = {}
+    for kw in ctor[0].keywords:
+        if kw.arg:
+            read_by[kw.arg] = {c.args[0].value for c in ast.walk(kw.value) if isinstance(c, ast.Call) and isinstance(c.func, ast.Attribute) and c.func.attr == "group"
+                               and c.args and isinstance(c.args[0], ast.Constant)}
+    want = {"epoch": {"epoch"}, "release": {"release"}, "pre": {"pre_l", "pre_n"}, "post": {"post_l", "post_n1", "post_n2"}, "dev": {"dev_l", "dev_n"}, "local": {"local"}}
+    ctx.check(rule, set().union(*want.values()) == groups - {"pre", "post", "dev"}, "VERSION_PATTERN has the named groups of PEP 440's appendix B", f"{M}.VERSION_PATTERN: named groups changed",
+              f"{sorted(groups)}", loc=f"src/bumpver/{M}.py")
+    for seg, gs in want.items():
+        ctx.check(rule, read_by.get(seg) == gs, f"Version.__init__: segment '{seg}' is read from the groups {sorted(gs)}", f"{M}.Version.__init__: segment '{seg}' does not read all of its regex groups",
+                  f"reads {sorted(read_by.get(seg, []))}, the pattern captures {sorted(gs)}: e.g. the number of `1.0.post2` sits in post_n2, of `1.0-2` in post_n1", loc=vi.loc(ctor[0]),
+                  witness={"versions": ["1.0.post1", "1.0.post2"]})
+    # (b)
+    plv = prog.function(f"{M}._parse_local_version")
+    ctx.visit(plv.fq)
+
+    class Splitter(Abstract):
+        def __init__(self, parts: T.List[str]):
+            self.parts = parts
+
+        def split(self, text: T.Any) -> T.List[str]:
+            return list(self.parts)
+    bad: T.List[str] = []
+    n = 0
+    try:
+        for parts in (None, ["abc"], ["ABC", "1", "Twelve"], ["007"], ["1"]):
+            env = {plv.params[0]: None if parts is None else "LOCAL", "_local_version_separators": Splitter(parts or []), "__strict__": True}
+            try:
+                got, _ys = prog.run_body(plv, env)
+            except EvalError as ex:
+                got = f"raises: {ex}"
+            wantv = None if parts is None else tuple(int(p_) if p_.isdigit() else p_.lower() for p_ in parts)
+            n += 1
+            if got != wantv or (isinstance(got, tuple) and [type(x) for x in got] != [type(x) for x in wantv]):
+                bad.append(f"parts {parts} -> {got!r}, expected {wantv!r}")
+    except (CannotFold, TypeError, AttributeError, KeyError, ValueError, IndexError) as ex:
+        ctx.observe(f"_parse_local_version not evaluated ({type(ex).__name__}: {str(ex)[:80]})")
+        n = 0
+    if n:
+        ctx.check(rule, not bad, f"_parse_local_version: the label's parts as lower-cased words and ints, None without a label ({n} labels evaluated)",
+                  f"{M}._parse_local_version: the local label is not parsed into lower-cased words and ints", "; ".join(bad[:2]), loc=plv.loc(), witness=["1.0+abc", "1.0"])
+    # (c)
+    ck = prog.function(f"{M}._cmpkey")
+    ctx.visit(ck.fq)
+    INF, NINF = "+Infinity", "-Infinity"
+    bad2: T.List[str] = []
+    n2 = 0
+    try:
+        for release, pre, post, dev, local in itertools.product(((1,), (1, 0), (1, 0, 0, 2), (0,)), (None, ("a", 1)), (None, ("post", 2)), (None, ("dev", 3)), (None, ("abc",), (1,), ("abc", 1))):
+            env = dict(zip(ck.params, (0, release, pre, post, dev, local)))
+            env.update({"Infinity": INF, "NegativeInfinity": NINF, "__strict__": True})
+            try:
+                got2, _ys = prog.run_body(ck, env)
+            except EvalError as ex:
+                got2 = f"raises: {ex}"
+            rel = list(release)
+            while rel and rel[-1] == 0:
+                rel.pop()
+            w_pre = NINF if (pre is None and post is None and dev is not None) else (INF if pre is None else pre)
+            w_local = NINF if local is None else tuple((i, "") if isinstance(i, int) else (NINF, i) for i in local)
+            want2 = (0, tuple(rel), w_pre, NINF if post is None else post, INF if dev is None else dev, w_local)
+            n2 += 1
+            if got2 != want2 and len(bad2) < 5:
+                bad2.append(f"release {release}, pre {pre}, post {post}, dev {dev}, local {local} -> {got2}, packaging gives {want2}")
+    except (CannotFold, TypeError, AttributeError, KeyError, ValueError, IndexError) as ex:
+        ctx.observe(f"_cmpkey not evaluated ({type(ex).__name__}: {str(ex)[:80]}); the sentinel table rule decides alone")
+        n2 = 0
+    if n2:
+        ctx.check(rule, not bad2, f"_cmpkey == packaging's key on {n2} segment combinations",
+                  f"{M}._cmpkey: the comparison key of a PEP 440 version is not packaging's key", "; ".join(bad2[:2]), loc=ck.loc(), witness={"cases": bad2[:3]})
+    # the local accessor used by __str__
+    lp = prog.klass(f"{M}.Version").methods.get("local")
+    if lp is not None:
+        bad3: T.List[str] = []
+        try:
+            for raw, wantl in ((None, None), (("abc", 1), "abc.1"), ((7,), "7")):
+                me = types.SimpleNamespace(_version=types.SimpleNamespace(local=raw))
+                got3, _ys = prog.run_body(lp, {lp.params[0]: me})
+                if got3 != wantl:
+                    bad3.append(f"_version.local = {raw!r} -> {got3!r}, expected {wantl!r}")
+            ctx.check("R7", not bad3, "Version.local is the label joined with dots (None when absent)", f"{M}.Version.local: the local label is not handed to __str__",
+                      "; ".join(bad3[:2]), loc=lp.loc(), witness="1.0+abc.1")
+        except (CannotFold, TypeError, AttributeError, KeyError, ValueError, IndexError):
+            pass
